@@ -7,10 +7,16 @@ ROOT = Path(__file__).resolve().parent.parent
 import importlib
 
 
+# properties whose machinery is finished and passes on the unchanged tree (others: not_applicable "not yet")
+DONE = {"C01", "C02", "C09", "C11", "C15", "C16", "C17", "C19", "C20"}
+
+
 def _claims():
     out = {}
     for i in range(1, 21):
         pid = f"C{i:02d}"
+        if pid not in DONE:
+            continue
         if not (ROOT / "vlib" / f"{pid.lower()}.py").exists():
             continue
         mod = importlib.import_module(f"vlib.{pid.lower()}")
